@@ -1,3 +1,3 @@
 From Coq Require Import Extraction ExtrOcamlBasic.
 From Nitro Require Import Base.Bytes Misc.Hash Misc.HashSpec Misc.Iter.
-Extraction "misc_model.ml" seq_eqb hash veqb vltb op_lt op_le op_gt op_ge op_eq op_ne tfind tbuild hrun spec_ltb spec_eqb spec_lookup spec_distinct cmp_shape enumerate_for enumerate_rvalue reverse_for reverse_rvalue reverse_array_for enumerate_twice reverse_twice enumerate_nested enumerate_reverse_nested enumerate_after_modify reverse_after_modify enumerate_nonempty_test reverse_nonempty_test spec_enumerate spec_enumerate_write.
+Extraction "misc_model.ml" seq_eqb hash veqb vltb op_lt op_le op_gt op_ge op_eq op_ne tfind tbuild hrun spec_ltb spec_eqb spec_lookup spec_distinct cmp_shape enumerate_for enumerate_rvalue reverse_for reverse_rvalue reverse_array_for reverse_for2 enumerate_for2 enumerate_twice reverse_twice enumerate_nested enumerate_reverse_nested enumerate_after_modify reverse_after_modify enumerate_nonempty_test reverse_nonempty_test spec_enumerate spec_enumerate_write.
